@@ -107,4 +107,52 @@ theorem tie_cachedTransactShape : cachedTransactShape =
 /-- nested transactions never reach the driver -/
 theorem tie_txConnShapes : txConnTransactShape = ["return"] ∧ txConnTransactCtxShape = ["return"] := by decide
 
+/-! ### every entry point anchored by the property is wired to `transactOnConn` the way the model assumes
+(callee *and* arguments of each hop; a changed context, begin function, acceptable function, body or callee
+breaks the obligation) -/
+
+/-- `commonSqlConn.Transact` = `TransactCtx` with a background context and the same body -/
+theorem tie_wire_Transact : wireTransact =
+    ["return db.TransactCtx(context.Background(), func(_ context.Context, session Session) error { return fn(session) })",
+     "func:return fn(session)", "func:call fn(session)"] := by decide
+
+/-- `commonSqlConn.TransactCtx`: the span's context goes to the breaker and to `transact`; the request is
+`transact` with the connection's own begin function and the caller's body; the verdict function is
+`db.acceptable`; the breaker's answer is returned (named result, bare return) -/
+theorem tie_wire_TransactCtx : wireTransactCtx =
+    ["call startSpan(ctx, \"Transact\")",
+     "call db.brk.DoWithAcceptableCtx(ctx, func() error { return transact(ctx, db, db.beginTx, fn) }, db.acceptable)",
+     "func:return transact(ctx, db, db.beginTx, fn)", "return "] := by decide
+
+theorem tie_wire_transact : wireTransactFn =
+    ["call db.connProv()", "return err", "return transactOnConn(ctx, conn, b, fn)"] := by decide
+
+/-- `begin` opens the transaction with `db.Begin()` — it is NOT bound to the caller's context: database/sql
+never rolls it back on its own when that context ends (what the model's `cancelAt` relies on) -/
+theorem tie_wire_begin : wireBegin =
+    ["call db.Begin()", "return nil, err", "return txSession{ Tx: tx, }, nil"] := by decide
+
+/-- both constructors install `begin` and a real breaker -/
+theorem tie_constructors :
+    litNewSqlConn = ["connProv: func", "onError: func", "beginTx: begin", "brk: breaker.NewBreaker()"] ∧
+    litNewSqlConnFromDB = ["connProv: func", "onError: func", "beginTx: begin", "brk: breaker.NewBreaker()"] := by
+  decide
+
+/-- `sqlc.CachedConn.Transact[Ctx]` delegate to the wrapped SqlConn's `TransactCtx` with the same context/body -/
+theorem tie_wire_cached :
+    wireCachedTransact = ["func:return fn(session)", "return cc.TransactCtx(context.Background(), fnCtx)"] ∧
+    wireCachedTransactCtx = ["return cc.db.TransactCtx(ctx, fn)"] := by decide
+
+/-- the Session helpers: a SqlConn / CachedConn made from a transaction's session is a `txConn`, whose
+`Transact[Ctx]` returns `errCantNestTx` and nothing else (model: `SK.nest`) -/
+theorem tie_wire_session_helpers :
+    wireWithSession = ["return CachedConn{ db: sqlx.NewSqlConnFromSession(session), cache: cc.cache, }"] ∧
+    wireFromSession = ["return txConn{ Session: session, }"] ∧
+    wireTxConnTransact = ["return errCantNestTx"] ∧ wireTxConnTransactCtx = ["return errCantNestTx"] ∧
+    errCantNestTxInit = "errors.New(\"cannot nest transactions\")" := by decide
+
+/-- a statement of the body made with a context goes to `sql.Tx.ExecContext` with that context (it is
+database/sql that refuses it once the context is done) -/
+theorem tie_wire_txExecCtx : wireTxExecCtx = ["call exec(ctx, t.Tx, q, args...)", "return "] := by decide
+
 end GoZero.C14.Tie
